@@ -201,6 +201,42 @@ func TestVerifC10Composite(t *testing.T) {
 	vs.Run(t, "C10", func(c *vs.Case) error { return vw.PropC10(c, compositeFactory, "composite") })
 }
 
+func TestVerifC01RegressionsSSAReplaced(t *testing.T) {
+	vs.RunFixed(t, "C01", map[string]func() error{
+		// server-side apply: a child deleted and re-created by someone else under the same name (same
+		// generation, other UID) must get the hook's fields again
+		"ssa-child-replaced-by-look-alike": func() error {
+			scn := vw.FixedScn("widgets", "InPlace", []string{"w0"}, 1)
+			scn.Cfg.SSA = true
+			env, err := vw.NewEnv(scn, compositeFactory)
+			if err != nil {
+				return err
+			}
+			for i := 0; i < 3; i++ {
+				if tr := env.SyncFresh(); tr.Panic != "" {
+					return vs.Violf("C01/panic", "%s", tr.Panic)
+				}
+			}
+			env.W.Sim.Purge("widgets", "ns1", "w0")
+			if _, err := env.W.Sim.ExtCreate("widgets", map[string]any{"apiVersion": "ex.io/v1", "kind": "Widget",
+				"metadata": map[string]any{"name": "w0", "namespace": "ns1", "labels": map[string]any{"app": "p1"}}, "spec": map[string]any{"v": "someone-elses"}}); err != nil {
+				return err
+			}
+			for i := 0; i < 4; i++ {
+				if tr := env.SyncFresh(); tr.Panic != "" {
+					return vs.Violf("C01/panic", "%s", tr.Panic)
+				}
+			}
+			live := env.W.Sim.Get("widgets", "ns1", "w0")
+			spec, _ := live["spec"].(map[string]any)
+			if spec["v"] == "someone-elses" {
+				return vs.Violf("C01/field-not-converged", "server-side apply: Widget ns1/w0 was re-created by someone else with spec.v=someone-elses; after 4 syncs the hook's value is still not applied (spec=%v)", spec)
+			}
+			return nil
+		},
+	})
+}
+
 func TestVerifC01RegressionsEcho(t *testing.T) {
 	vs.RunFixed(t, "C01", map[string]func() error{
 		// a hook that echoes the observed annotations (hence metacontroller's own last-applied
